@@ -272,7 +272,10 @@ pub fn g1_decoder_accepts_outside_subgroup(which: &str) -> bool {
 ///   * the all-honest batch must be accepted;
 ///   * every batch with P+ at ONE position must be rejected (a member that is dropped / gets weight 0);
 ///   * every batch with P+ at position i and P- at position j > i must be rejected (two members
-///     with the same weight).
+///     with the same weight);
+///   * every batch with P+ at position i and P1 - r0^(j-i) D at position j > i must be rejected, r0
+///     being the challenge of a batching transcript that absorbed nothing (a challenge that does
+///     not depend on the members).
 /// true (= reproduced) iff the real `batch_verify` answers otherwise for at least one of them.
 pub fn batch_fold_attack(max_n: usize) -> bool {
     use group::{Group, GroupEncoding};
@@ -306,12 +309,20 @@ pub fn batch_fold_attack(max_n: usize) -> bool {
     let delta = G1Projective::generator() * F::from(0xD17A);
     let plus = shift(&p1, delta);
     let minus = shift(&p1, -delta);
+    // the challenge a batching transcript hands out when it has absorbed NOTHING: a verifier whose
+    // batching challenge does not depend on the members uses exactly this value, and the pair
+    // (P1 + D at i, P1 - r0^(j-i) D at j) then cancels under the documented weights r^(n-1-i)
+    let r0: F = {
+        use midnight_proofs::transcript::{CircuitTranscript, Transcript};
+        CircuitTranscript::<blake2b_simd::State>::init().squeeze_challenge()
+    };
+    let minus_r0: Vec<Vec<u8>> = (0..max_n).map(|d| shift(&p1, -(delta * r0.pow([d as u64])))).collect();
     let one = |inst: &F, p: &[u8]| midnight_zk_stdlib::verify::<Tiny, blake2b_simd::State>(&vparams, &vk, inst, None, p).is_ok();
     if !(one(&i0, &p0) && one(&i1, &p1)) || one(&i1, &plus) || one(&i1, &minus) {
         println!("batch-fold-attack: sanity failed (honest proofs must verify, shifted copies must not): nothing concluded");
         return false;
     }
-    // member kinds: 0 = honest P0, 1 = honest P1, 2 = P+, 3 = P-
+    // member kinds: 0 = honest P0, 1 = honest P1, 2 = P+, 3 = P-, 4 + d = P1 - r0^d D
     let batch = |kinds: &[u8]| -> Result<bool, String> {
         let vks = vec![vk.clone(); kinds.len()];
         let pis: Vec<Vec<F>> = kinds.iter().map(|k| vec![if *k == 0 { i0 } else { i1 }]).collect();
@@ -321,12 +332,13 @@ pub fn batch_fold_attack(max_n: usize) -> bool {
                 0 => p0.clone(),
                 1 => p1.clone(),
                 2 => plus.clone(),
-                _ => minus.clone(),
+                3 => minus.clone(),
+                d => minus_r0[(*d - 4) as usize].clone(),
             })
             .collect();
         quiet(|| midnight_zk_stdlib::batch_verify::<blake2b_simd::State>(&vparams, &vks, &pis, &proofs).is_ok())
     };
-    let show = |kinds: &[u8]| kinds.iter().map(|k| ["P0", "P1", "P+", "P-"][*k as usize]).collect::<Vec<_>>().join(", ");
+    let show = |kinds: &[u8]| kinds.iter().map(|k| ["P0", "P1", "P+", "P-", "P-r0^0", "P-r0^1", "P-r0^2", "P-r0^3", "P-r0^4"][*k as usize]).collect::<Vec<_>>().join(", ");
     let mut reproduced = false;
     let mut tried = 0;
     for n in 1..=max_n {
@@ -353,6 +365,13 @@ pub fn batch_fold_attack(max_n: usize) -> bool {
                 tried += 1;
                 if let Ok(true) = batch(&c) {
                     println!("batch_verify([{}]) -> Ok: ACCEPTED a batch whose members {i} and {j} are invalid (their errors cancel: equal weights)", show(&c));
+                    reproduced = true;
+                }
+                let mut c = b.clone();
+                c[j] = 4 + (j - i) as u8;
+                tried += 1;
+                if let Ok(true) = batch(&c) {
+                    println!("batch_verify([{}]) -> Ok: ACCEPTED a batch whose members {i} and {j} are invalid (errors prepared for the member-independent challenge r0)", show(&c));
                     reproduced = true;
                 }
             }
